@@ -23,6 +23,9 @@ def run(tier, seed, t0):
     scen = THOROUGH if tier == "thorough" else QUICK
     budget = 900 if tier == "thorough" else 100
     res = vlib.run_workers(w, [["-scenario", s, "-tier", tier, "-budget", str(budget)] for s in scen], timeout=budget + 120)
+    # adjunct: requests next to reloads, free-running under the Go race detector (same build: outside an exploration the
+    # vsync shim is the real sync package, so the detector sees the real locking)
+    res += vlib.race_pass("c13race", INJECTS, "./internal/zzverif_c13", ["race"], budget=240 if tier == "thorough" else 24, rewrites=REWRITES)
     vlib.finish(PID, tier, "model_checking", res, t0, ASSUME,
                 "stateless DFS over all interleavings (no preemption bound) of k RegisterBidirectional calls and m ReloadSubnets calls on the real RegProcessor with modelled RWMutex; scenario name = request kinds/reload count; distinct_nontrivial = distinct observable outcomes (verdict + which subnet set each address came from)",
                 seed=seed)
